@@ -73,6 +73,24 @@ CHECKS = {
    note=TB + "All C05 theorems closed under the global context. Tie: 9 accessors x 121 unit pairs compared in Coq with the model on the "
         "implementation's own factors (1e-13); random context programs incl. real builds compared state by state in Coq.",
    design="7/C05", technique="Coq proof (field arithmetic over Q; induction over context programs) + in-Coq differential correspondence"),
+ "C04": dict(
+   text="Proved in Coq over an abstract group of basis changes acting on abstract data (so for every class and every size): "
+        "EVERY program of object creation, reads, writes, protect/unprotect, apply-with-copy, arbitrarily nested eigenbasis_of "
+        "contexts, exceptions at any point and handlers keeps the bookkeeping invariant at every fragment boundary, and run "
+        "outside every context ends with stack and registrations restored, no stale tag, and every unprotected object it did not "
+        "itself overwrite back in exactly its original representation; what is read inside a context is the site-basis value "
+        "carried through all transformations on the stack. For the concrete actions over any commutative *-ring and size: "
+        "S^-1 A S composes, is undone by the inverse, keeps tr A and tr(AB); the (repaired) two-pass 4-index transformation makes "
+        "tensor application basis independent for ANY invertible S and is undone by the inverse pair; the pinned second pass equals "
+        "it exactly for orthogonal S; refutation witnesses for the pinned tree (complex unitary S; stale tag of apply() copies), both "
+        "repaired by fix: commits, as is the forgotten current_basis_operator after a nested context. Validated only: eigh returns "
+        "a diagonalising S (monitored: operator diagonal and ascending inside its context).",
+   note=TB + "All C04 theorems closed under the global context. Tie: random programs on the real Operator/SelfAdjointOperator/"
+        "SuperOperator classes with exact signed-permutation eigenbases compared inside Coq (reads, final tags/protection/raw data, "
+        "registration lists, depth); float monitors for real symmetric, degenerate, complex Hermitian operators (1e-9). Objects "
+        "protected inside a context are re-tagged, not transformed (by design) and are excluded from the restoration claim. "
+        "DensityMatrixEvolution/StateVectorEvolution/operator-form tensors are covered by the action laws only.",
+   design="7/C04", technique="Coq proof (state-machine invariant by induction over program trees; ring algebra for the actions) + in-Coq differential correspondence"),
 }
 NOT_YET = {}
 def main():
